@@ -291,7 +291,7 @@ class Configs(ProductSystem):
 
 def build(tier, seed):
     nblk = 64
-    layers = [1, 0, 2] if tier == "quick" else [1, 0, 2, 3]
+    layers = [1, 0, 2, 3]
     places = [0, 1] if tier == "quick" else [0, 1, 3]
     imp = [{"poly": p, "layers": l, "place": pl} for p in ("horizontal", "vertical", "diagonal", "shallow", "steep", "curved", "backward") for l in layers for pl in places]
     return [ListSystem("windows-3x3-all", [{"block": b, "nblocks": nblk} for b in range(nblk)], eval_windows),
